@@ -1,0 +1,36 @@
+//go:build verif
+
+package server
+
+import (
+	"errors"
+	"net/http"
+	"time"
+)
+
+// VerifDisableShareDelay turns off the anti-timing delay that the share
+// handler inserts before refusing a request, so that verification harnesses
+// can enumerate thousands of refused via-chains.
+func VerifDisableShareDelay() {
+	timeSleep = func(time.Duration) {}
+}
+
+// VerifShareServe serves req with the share handler h exactly as its
+// ServeHTTP does and additionally reports which of the handler's error codes
+// (e.g. "noError", "shareExpired", "viaChainInvalidLink") the request ended
+// with. ok is false if h is not a share handler.
+func VerifShareServe(h http.Handler, rw http.ResponseWriter, req *http.Request) (code string, ok bool) {
+	sh, ok := h.(*shareHandler)
+	if !ok {
+		return "", false
+	}
+	err := sh.serveHTTP(rw, req)
+	if err == nil {
+		return noError.String(), true
+	}
+	var se *shareError
+	if errors.As(err, &se) {
+		return se.code.String(), true
+	}
+	return "otherError", true
+}
